@@ -1,0 +1,214 @@
+//! Verification hooks for mqtt-out (cargo feature `verif-hooks`).
+//!
+//! Add-only. Provides an MQTT client that records what is handed to it
+//! (the real client needs a broker) and entry points that run the real
+//! `MqttRunner` with it. Nothing here alters the behaviour of the target.
+
+use std::{
+    collections::HashMap,
+    sync::{Arc, Mutex, OnceLock},
+    time::Duration,
+};
+
+use async_trait::async_trait;
+use mqtt::{
+    ClientError, ConnAck, ConnectReturnCode, Event, Incoming, MqttOptions,
+    NetworkOptions, QoS,
+};
+use non_empty_vec::NonEmpty;
+use tokio::sync::mpsc;
+
+use super::{
+    config::{ClientId, Config, Destination},
+    connection::{
+        Client, Connection, ConnectionFactory, EventLoop, MqttPollResult,
+    },
+    status_reporter::MqttStatusReporter,
+    target::MqttRunner,
+};
+use crate::{
+    comms::{Link, Terminated},
+    manager::{Component, TargetCommand, WaitPoint},
+    roto_runtime::types::OutputStreamMessage,
+};
+
+/// One message handed to the MQTT client.
+#[derive(Clone, Debug, PartialEq, Eq)]
+pub struct Published {
+    pub topic: String,
+    pub payload: Vec<u8>,
+    pub qos: u8,
+    pub retain: bool,
+}
+
+pub type Sink = Arc<Mutex<Vec<Published>>>;
+
+static SINKS: OnceLock<Mutex<HashMap<String, Sink>>> = OnceLock::new();
+
+/// The sink that records the publications of every client created with the
+/// given MQTT client id.
+pub fn sink_for(client_id: &str) -> Sink {
+    SINKS
+        .get_or_init(Default::default)
+        .lock()
+        .unwrap()
+        .entry(client_id.to_string())
+        .or_default()
+        .clone()
+}
+
+pub fn forget_sink(client_id: &str) {
+    if let Some(m) = SINKS.get() {
+        m.lock().unwrap().remove(client_id);
+    }
+}
+
+#[derive(Clone, Debug)]
+pub struct CaptureClient {
+    sink: Sink,
+}
+
+#[async_trait]
+impl Client for CaptureClient {
+    type EventLoopType = CaptureEventLoop;
+
+    fn new(options: MqttOptions, _cap: usize) -> (Self, Self::EventLoopType) {
+        let sink = sink_for(&options.client_id());
+        (
+            Self { sink },
+            CaptureEventLoop {
+                options,
+                network_options: NetworkOptions::default(),
+                acked: false,
+            },
+        )
+    }
+
+    async fn publish<S, V>(
+        &self,
+        topic: S,
+        qos: QoS,
+        retain: bool,
+        payload: V,
+    ) -> Result<(), ClientError>
+    where
+        S: Into<String> + Send,
+        V: Into<Vec<u8>> + Send,
+    {
+        self.sink.lock().unwrap().push(Published {
+            topic: topic.into(),
+            payload: payload.into(),
+            qos: qos as u8,
+            retain,
+        });
+        Ok(())
+    }
+
+    async fn disconnect(&self) -> Result<(), ClientError> {
+        Ok(())
+    }
+}
+
+/// Acknowledges the connection once, then stays quiet.
+pub struct CaptureEventLoop {
+    options: MqttOptions,
+    network_options: NetworkOptions,
+    acked: bool,
+}
+
+#[async_trait]
+impl EventLoop for CaptureEventLoop {
+    async fn poll(&mut self) -> MqttPollResult {
+        if !self.acked {
+            self.acked = true;
+            Ok(Event::Incoming(Incoming::ConnAck(ConnAck {
+                session_present: false,
+                code: ConnectReturnCode::Success,
+            })))
+        } else {
+            std::future::pending().await
+        }
+    }
+
+    fn mqtt_options(&self) -> &MqttOptions {
+        &self.options
+    }
+
+    fn network_options(&self) -> NetworkOptions {
+        self.network_options.clone()
+    }
+
+    fn set_network_options(
+        &mut self,
+        network_options: NetworkOptions,
+    ) -> &mut Self {
+        self.network_options = network_options;
+        self
+    }
+
+    fn inflight(&self) -> u16 {
+        0
+    }
+}
+
+impl ConnectionFactory for MqttRunner<CaptureClient> {
+    type EventLoopType = CaptureEventLoop;
+
+    type ClientType = CaptureClient;
+
+    fn connect(
+        config: &Config,
+        status_reporter: Arc<MqttStatusReporter>,
+    ) -> Connection<Self::ClientType> {
+        let options = MqttOptions::new(
+            config.client_id.clone(),
+            config.destination.host.clone(),
+            config.destination.port,
+        );
+        Connection::new(options, config.connect_retry_secs, status_reporter)
+    }
+}
+
+fn mk_config(client_id: &str, topic_template: &str, qos: i32) -> Config {
+    Config {
+        client_id: ClientId(client_id.to_string()),
+        destination: Destination::from(("verif".to_string(), 1883)),
+        qos,
+        topic_template: topic_template.to_string(),
+        connect_retry_secs: Duration::from_secs(1),
+        publish_max_secs: Config::default_publish_max_secs(),
+        queue_size: Config::default_queue_size(),
+        ..Default::default()
+    }
+}
+
+/// Runs the real mqtt-out target (`MqttRunner::run`: direct link to the
+/// gate, publish queue, publish loop) with the capturing client. What the
+/// client is handed ends up in `sink_for(client_id)`.
+pub async fn run_mqtt_target(
+    client_id: &str,
+    topic_template: &str,
+    qos: i32,
+    component: Component,
+    source: Link,
+    cmd_rx: mpsc::Receiver<TargetCommand>,
+    waitpoint: WaitPoint,
+) -> Result<(), Terminated> {
+    let config = mk_config(client_id, topic_template, qos);
+    MqttRunner::<CaptureClient>::new(config, component)
+        .run(NonEmpty::new(source.into()), cmd_rx, waitpoint)
+        .await
+}
+
+/// `MqttRunner::output_stream_message_to_msg` on a runner built from the
+/// given configuration: `Some((topic, content))` if the message is selected.
+pub fn output_stream_message_to_msg(
+    topic_template: &str,
+    component: Component,
+    osm: OutputStreamMessage,
+) -> Option<(String, String)> {
+    let config = mk_config("verif", topic_template, 2);
+    MqttRunner::<CaptureClient>::new(config, component)
+        .output_stream_message_to_msg(osm)
+        .map(|m| (m.topic, m.content))
+}
